@@ -715,6 +715,8 @@ func (ctx *Context) evaluate() {
 			if ctx.Error != nil {
 				return
 			}
+			// 赋值可以出现在表达式位置上(括号内、数组元素、函数参数、另一个赋值的右侧)，和 store 一样留下所赋的值
+			stackPush(val)
 		case typeAttrSet:
 			attrVal, obj := stackPop2()
 			attrName := code.Value.(string)
@@ -726,6 +728,7 @@ func (ctx *Context) evaluate() {
 			if ctx.Error != nil {
 				return
 			}
+			stackPush(attrVal)
 		case typeAttrGet:
 			obj := stackPop()
 			attrName := code.Value.(string)
@@ -766,6 +769,7 @@ func (ctx *Context) evaluate() {
 			if ctx.Error != nil {
 				return
 			}
+			stackPush(val)
 
 		case typeReturn:
 			solveDetail()
